@@ -1,7 +1,7 @@
 (* C12 Checksum qualifier: one canonical text, typed round trip, order independence *)
 Load "coq/props/Hdr".
 From Coq Require Import Permutation.
-From PM Require Import Cs Cs2 Cs4 Cs5 C04.
+From PM Require Import Cs Cs2 Cs4 Cs5 C04 Quals Assemble More.
 Lemma src_rt : rt_ok cfg. Proof. prove_rt. Qed.
 Lemma src_cfg_ok : cfg_ok cfg. Proof. sc. Qed.
 (* every hash-map iteration order gives the same text *)
@@ -28,3 +28,8 @@ Theorem C12_case_insensitive_replace : forall m a1 v1 a2 v2, KI cfg m -> utf8_va
   KI cfg m2 /\ cm_get m2 (spec_lower cfg a1) = Some v2 /\ map fst m2 = map fst (cs_insert_raw cfg m a1 v1).
 Proof. apply C12_case; sc. Qed.
 Print Assumptions C12_case_insensitive_replace.
+(* a PURL parsed or built with a checksum carries a text that reads back through the typed accessor and re-serialises to itself (any sane hook) *)
+Theorem C12_stored_checksum_reads_back : forall (T E : Type) (sh : shape T E) t p t' p', hook_sane cfg sh -> QInv cfg (p_quals p) -> vals_utf8 (p_quals p) ->
+  build cfg sh t p = Ok (t', p') -> forall v, q_get cfg (p_quals p') s_checksum = Some v -> exists m, cs_try_from cfg v = Ok m /\ cs_to_text m = Ok v /\ v <> [].
+Proof. intros T E sh t p t' p'. apply C12_stored_checksum_round_trips; sc. Qed.
+Print Assumptions C12_stored_checksum_reads_back.
